@@ -17,12 +17,12 @@ CHECKS = {
             True),
     "C02": ("vhist", "model_checking", "explicit-state BFS over the real cipher object to a fixpoint, model = absolute position + scalar keystream",
             "6/C02",
-            "All reachable states of the real cipher object under a menu of every seek position (7 integer types), every request length and current_pos inside three position windows are explored to a fixpoint; every transition is an implementation call compared with the position model, in release and overflow-checked builds.",
+            "All reachable states of the real cipher object under a menu of every seek position (7 integer types), every request length and current_pos inside three position windows are explored to a fixpoint; every transition is an implementation call compared with the position model, in release and overflow-checked builds. A second, stateless phase executes every history of 3 (4) calls over a 75-entry menu on live objects (no use of the cipher's fields), and stateright re-explores the small systems as an independent cross-check.",
             "window restriction (positions near 0, 2^38 and 2^64 bytes); quick tier merges states that differ only in dead bytes of the block buffer for deduplication only (stored states keep their real bytes), thorough uses the exact key; needs the public state fields of the cipher objects (harness feature `internals`)",
             True),
     "C03": ("venum", "exploration", "complete enumeration of the 13-point backend/dispatch configuration lattice, differential against the reference models and across points",
             "6/C03",
-            "The configuration lattice (6 std-dispatch points via hook H1, 5 no_std compile-time points, no_simd with/without std) is enumerated completely; in every point the same probe runs every dispatching algorithm on a bounded input set, compares with the reference models and the fingerprints of all points must be equal.",
+            "The configuration lattice (6 std-dispatch points via hook H1, 5 no_std compile-time points, no_simd with/without std) is enumerated completely; in every point the same probe runs every dispatching algorithm on a bounded input set, compares with the reference models and the fingerprints of all points must be equal, and the Machine type the dispatch actually instantiated (reported by the probe) must be the one the point selects (implementation-selection oracle).",
             "inputs per point are a bounded set (C01/C04/C06 go deeper on the default point); all backends are executed on this AVX2 host",
             True),
     "C04": ("venum", "exploration", "bounded-exhaustive enumeration of message lengths and bit positions against an independent BLAKE model",
@@ -32,7 +32,7 @@ CHECKS = {
             True),
     "C05": ("venum", "exploration", "bounded-exhaustive enumeration over state size x output size x message length against an independent Skein/Threefish model",
             "6/C05",
-            "3 state sizes x 25 output sizes (1..512 bytes, incl. non-multiples of 8 and several output blocks) x every message length over 4 (thorough 9) blocks, plus one-hot messages, compared with UBI over the model's own Threefish, in release and overflow-checked builds.",
+            "3 state sizes x 27 output sizes (1..65536 bytes, incl. non-multiples of 8, several output blocks and sizes at the 2^14 / 2^16 marks) x every message length over 4 (thorough 9) blocks, plus one-hot messages, long messages and, for every (state size, output size), reuse after reset / finalize_reset / finalize_fixed_reset, compared with UBI over the model's own Threefish, in release and overflow-checked builds.",
             "trusts vref::skein/threefish (self-tested against the 6 shipped KAT files and the Skein submission's Threefish vectors); output sizes are a list, not all N",
             True),
     "C06": ("venum", "exploration", "bounded-exhaustive enumeration: bit-sliced F8 vs nibble-oriented definition at every input bit position, plus digest length sweep",
@@ -52,7 +52,7 @@ CHECKS = {
             True),
     "C09": ("venum", "exploration", "bounded-exhaustive differential enumeration (every key/tweak/block bit) against an independent Threefish model, unrolled and no_unroll builds",
             "6/C09",
-            "Every one-hot key, tweak and block bit, word-boundary values and the parity-word-zero key for all three sizes, through encrypt_block and the slice entry point encrypt_blocks, in the default, the overflow-checked and the no_unroll build, against a round-loop model with on-the-fly subkeys.",
+            "Every one-hot key, tweak and block bit, word-boundary values and the parity-word-zero key for all three sizes, through encrypt_block, the slice entry point encrypt_blocks, the par-blocks entry points and ciphers built by new, new_from_slice and clone, with all-zero key/tweak products, in the default, the overflow-checked and the no_unroll build, against a round-loop model with on-the-fly subkeys.",
             "trusts vref::threefish (Skein submission vectors); value alphabet",
             True),
     "C10": ("venum", "exploration", "bounded-exhaustive enumeration of both composition orders plus decrypt against the model",
@@ -82,17 +82,17 @@ CHECKS = {
             True),
     "C15": ("vhist", "model_checking", "explicit-state BFS over set/get/refill/refill4 on the real ChaCha state; complete single-bit and word-pair enumeration for the equality predicates",
             "6/C15",
-            "BFS to depth 4 (5) over set_stream_param with 7 (11) boundary values per parameter, getters and both refills from three seeds; every step checks getter values, isolation, key words (== against a directly built twin) and output against the block function; the predicates are checked on every single-bit difference of all 12 stored words and every word pair.",
+            "BFS to depth 12 (24) over set_stream_param with 7 (11) boundary values per parameter, getters and both refills from three seeds; every step checks getter values, isolation, key words (== against a directly built twin) and output against the block function; the predicates are checked on every single-bit difference of all 12 stored words and every word pair.",
             "parameter values are a boundary alphabet",
             True),
     "C16": ("venum", "exploration", "complete enumeration of placements (guard-page abutting, every alignment 0..63) x lengths x byte-slice APIs x backends on a PROT_NONE-guarded arena",
             "6/C16",
-            "Every byte-slice API is run on slices abutting an unmapped page before and after and at every alignment 0..63, for every length 0..=130 and block-size boundaries; results must equal the heap run, bytes outside the slice must be unchanged, and the subprocess must survive.",
+            "Every byte-slice API is run on slices abutting an unmapped page before and after and at every alignment 0..63, for every length 0..=130 and block-size boundaries; results must equal the heap run, bytes outside the slice must be unchanged, and the subprocess must survive; the vector load/store entry points of every backend are also given slices of every wrong length 0..=40 abutting the guard pages (they must refuse without touching memory outside the slice).",
             "an out-of-slice read that stays inside the mapped arena and does not change the result is invisible; this host's page size",
             False),
     "C17": ("vhist", "model_checking", "exhaustive enumeration of short update/finalize histories from fast-forwarded counter states around every word boundary (hook H2); real streaming across the first boundaries",
             "6/C17",
-            "For every hasher and counter boundary, implementation and reference are set to the same counter value up to 4 blocks below the boundary and every history of up to 2 (3) updates + finalize is executed on both, in release and overflow-checked builds; Groestl is streamed for real through 2^8 and 2^16 blocks, and in the thorough tier BLAKE-224/256 and JH through 2^32 bits and Skein-512 through 2^32 bytes.",
+            "For every hasher and counter boundary, implementation and reference are set to the same counter value up to 4 blocks below the boundary and every history of up to 2 (3) updates + finalize is executed on both, in release and overflow-checked builds; Groestl is streamed for real through 2^8 and 2^16 blocks, and in the thorough tier BLAKE-224/256 and JH through 2^32 bits and Skein-512 through 2^32 bytes, each also with one single 512 MiB update call, and Groestl with one single 4 GiB update call; histories include reset operations after a boundary.",
             "beyond the first boundary the state is fast-forwarded (counter overwritten on the initial chaining value); JH's 512 MiB prefix uses the public Compressor certified by C06",
             True),
     "C18": ("vsched", "model_checking", "exhaustive enumeration of all call-granularity interleavings of 3-4 threads in cold subprocesses under a baton scheduler, and of instance interleavings in one thread",
@@ -107,7 +107,7 @@ CHECKS = {
             True),
     "C20": ("venum", "exploration", "complete enumeration of every package's feature lattice (every subset built), plus probe fingerprints across implementation-selecting feature sets",
             "6/C20",
-            "Every subset of the declared features of each of the 9 packages is built with default features off; the probe of C03 is built with 8 (thorough: all 256) implementation-selecting feature sets and must give the reference fingerprint; Threefish no_unroll runs C09's domain.",
+            "Every subset of the declared features of each of the 9 packages is built with default features off; the probe of C03 is built with 8 (thorough: all 256) implementation-selecting feature sets and must give the reference fingerprint and report the Machine type that feature set selects; a configuration of the harness that stops building is a violation; Threefish no_unroll runs C09's domain.",
             "stable toolchain and x86-64 target of this sandbox; one known finding (packed_simd) is listed in KNOWN_FINDINGS.txt",
             True),
 }
